@@ -49,6 +49,9 @@ def run(ctx):
     # "minimal big-endian encoding of the amount": the coin id hashes the raw amount atom, so the sanitiser must admit only the
     # canonical form (shared with C11.2)
     c11.c11_2(ctx, R="C02.6")
+    # value conservation is enforced by validate_conditions: no accepting path of an entry point may skip it (shared with C01.5)
+    from . import c01_effects
+    c01_effects.entry_points_validate(ctx, "C02.3")
 
 
 def c02_1(ctx):
